@@ -347,3 +347,65 @@ def _(run):
         val = t2.val.t if isinstance(t2, VOpt) else t2.t; none = t2.none if isinstance(t2, VOpt) else z3.BoolVal(False)
         return z3.If(empty, z3.And(z3.Not(none), val == fixed), z3.And(z3.Not(none), val == text))
     run.post(ex, outs, pre, {'error-iff-text-differs-from-the-fixed-value-in-the-value-space': one_error, 'no-text-takes-the-fixed-value-a-text-is-kept': takes_fixed})
+
+
+# ------------------------------------------------------------------ XsdElement.get_attributes: the attribute group that goes with the governing type
+t = Target('elements.XsdElement.get_attributes', ['C07', 'C03'], F, 'XsdElement.get_attributes',
+           note="the attribute group used for an element governed by xsd_type (the declared type, or the one named by xsi:type / selected by an alternative): a complex type's own "
+                "attributes; for a simple type the declaration's own group only when the type IS the declared type, otherwise a new empty group - a simple type admits no "
+                "attribute, whatever the declared type admits")
+
+
+@t.symbolic
+def _(run):
+    ex = run.exec(); st = new_state()
+    is_simple, same = z3.Bool('type_is_simple'), z3.Bool('type_is_declared_type')
+    st.objf['xsd_type'] = {'attributes': VObj('type_attributes')}
+    st.objf['self'] = {'type': VObj('declared_type'), 'attributes': VObj('declaration_attributes'), 'builders': VObj('builders')}
+    for n in ('type_attributes', 'declared_type', 'declaration_attributes', 'builders', 'empty_group'): st.objf[n] = {}
+    st.env.update(self=VObj('self'), xsd_type=VObj('xsd_type')); st.ghost['made'] = 0
+    ex.callees['isinstance'] = lambda e, s, r, a, k: VBool(is_simple)
+    ex.names['XsdSimpleType'] = OPAQUE
+
+    def create_empty(e, s, r, a, k): s.ghost['made'] += 1; return VObj('empty_group')
+    ex.callees['create_empty_attribute_group'] = create_empty
+    orig = ex.cmp
+
+    def cmp(op, l, r, s):
+        # identity of the governing type with the declared type is an input of the contract (the two objects are distinct names of the state)
+        if isinstance(op, (ast.Is, ast.IsNot)) and {getattr(l, 'name', None), getattr(r, 'name', None)} == {'xsd_type', 'declared_type'}:
+            return same if isinstance(op, ast.Is) else z3.Not(same)
+        return orig(op, l, r, s)
+    ex.cmp = cmp
+    # any other test the body applies to the two types is outside the contract: left unsupported, so that such a body is decided by the run-time side
+    run.inputs.update(type_is_simple=is_simple, type_is_declared_type=same)
+    pre = z3.BoolVal(True); outs = ex.run(st, pre)
+
+    def post(kind, v, s):
+        if kind != 'return' or not isinstance(v, VObj): return z3.BoolVal(False)
+        want = z3.If(z3.Not(is_simple), z3.BoolVal(v.name == 'type_attributes'), z3.If(same, z3.BoolVal(v.name == 'declaration_attributes'), z3.BoolVal(v.name == 'empty_group' and s.ghost['made'] == 1)))
+        return want
+    run.post(ex, outs, pre, {'group-of-the-governing-type': post})
+
+
+@t.concrete
+def _(inp):
+    import xmlschema
+    s = xmlschema.XMLSchema10('''<xs:schema xmlns:xs="http://www.w3.org/2001/XMLSchema">
+ <xs:simpleType name="S"><xs:restriction base="xs:int"/></xs:simpleType><xs:complexType name="C"><xs:attribute name="k"/></xs:complexType>
+ <xs:element name="open"/><xs:element name="i" type="xs:int"/><xs:element name="c" type="C"/></xs:schema>''')
+    e = s.elements[inp['element']]
+    ty = e.type if inp['type_is_declared_type'] else s.types['S'] if inp['type_is_simple'] else s.types['C']
+    if inp['type_is_declared_type'] and ty.is_simple() != inp['type_is_simple']: return dict(ok=True, observed='n/a', required='n/a')
+    got = e.get_attributes(ty)
+    if not ty.is_simple(): ok = got is ty.attributes
+    elif ty is e.type: ok = got is e.attributes
+    else: ok = got is not e.attributes and len(got) == 0 and got.get(None) is None
+    return dict(ok=ok, observed=repr(got), required='group of the governing type')
+
+
+@t.scope
+def _(tier, rng):
+    for el in ('open', 'i', 'c'):
+        for a in (False, True):
+            for b in (False, True): yield dict(element=el, type_is_simple=a, type_is_declared_type=b)
